@@ -74,6 +74,10 @@ class RealApi:
             return getattr(b, kind)(p)
         except OSError as e:
             return '!' + type(e).__name__
+        except ValueError:
+            if '\0' not in p:
+                raise
+            return '!ValueError'      # a name no file can have (embedded NUL): open() refuses it
 
     def battery(self, paths, full=True):
         return [['q', k, r, self.query(k, r)]
